@@ -109,11 +109,16 @@ pub fn lex(text: &str) -> Result<Vec<RTok>, String> {
                     i = k;
                     continue;
                 }
-                return Err(format!("ambiguous 0{} prefix at {}", nc as char, i));
+                if k > j + 1 {
+                    return Err(format!("radix digits glued to identifier characters after 0{} at {}", nc as char, i));
+                }
+                // no digit of that radix follows (`0bar`, `0xg`): an identifier, handled below
             }
             if is_ualpha(nc) {
-                if nc == b'x' || nc == b'b' {
-                    return Err(format!("digit-leading identifier with x/b at {}: outside the audited fragment", i));
+                // LLVM lexes <digits> x <hex digit> / <digits> b <0|1> as a number first: outside the fragment
+                let nn = at(j + 1);
+                if (nc == b'x' && nn.is_ascii_hexdigit()) || (nc == b'b' && (nn == b'0' || nn == b'1')) {
+                    return Err(format!("digits followed by a radix-like prefix at {}: outside the audited fragment", i));
                 }
                 let mut k = j;
                 while is_idc(at(k)) {
